@@ -202,10 +202,15 @@ impl<'a, 'c> G<'a, 'c> {
             _ => InvalidHereafter(self.s.u64e()),
         }
     }
-    /// hand-written codec; denominators >= 1 (what the ledger can produce)
+    /// hand-written codec; any pair of u64 — a zero denominator is no number, but it is a value the type holds and the
+    /// codec writes, so it has to come back as it was
     pub fn rational(&mut self) -> RationalNumber {
         self.s.hand("RationalNumber");
-        RationalNumber { numerator: self.s.u64e(), denominator: self.s.u64e().max(1) }
+        let (numerator, denominator) = (self.s.u64e(), self.s.u64e());
+        if denominator == 0 {
+            self.s.classes.push("RationalNumber:zero-denominator".into());
+        }
+        RationalNumber { numerator, denominator }
     }
     /// hand-written codec; every variant x every Option combination
     pub fn relay(&mut self) -> Relay {
